@@ -178,6 +178,23 @@ def install():
 # ------------------------------------------------------------------------------------------------
 # projections
 # ------------------------------------------------------------------------------------------------
+def requested_prms(percall):
+    """ the parameters the user asked for: the global dictionary as it is when the chunk is created, overlaid with the per-call
+    dictionary (the documented meaning of a nested partial assignment). The specification is bound to THESE values, not to what
+    the chunk says it holds. """
+    import copy
+    from ampycloud import dynamic
+
+    def overlay(ref, new):
+        for k, v in new.items():
+            if isinstance(v, dict) and isinstance(ref.get(k), dict):
+                overlay(ref[k], v)
+            else:
+                ref[k] = v
+        return ref
+    return overlay(copy.deepcopy(dynamic.AMPYCLOUD_PRMS), copy.deepcopy(percall or {}))
+
+
 def project_prms(prms):
     """ chunk.prms -> the integer parameter record of the specification """
     def need_int(x, nm):
@@ -376,7 +393,12 @@ def layout(df, lay):
                     df[col] = df[col].astype(int)
             else:
                 df[col] = df[col].astype(dt)
-    if lay.get('extra') == 'mixed':
+    if lay.get('extra') == 'dup':
+        # two columns of the caller's own under the same label, and a column of per-hit arrays
+        df.insert(len(df.columns), 'note', 1)
+        df.insert(len(df.columns), 'note', 2, allow_duplicates=True)
+        df['profile'] = [np.arange(3) + i for i in range(len(df))]
+    elif lay.get('extra') == 'mixed':
         # column labels need not be strings (pd.concat([frame, series], axis=1) gives an integer label)
         df[0] = range(len(df))
         df['station'] = 'LSGG'
@@ -418,6 +440,13 @@ def relabel(df, mode, ceilos):
         df.index = [f'row{i % max(1, n // 2)}' for i in range(n)]        # strings, with repeats
     elif mode == 'float':
         df.index = [0.5 * i for i in range(n)]
+    elif mode == 'named':
+        # an index that carries the name of a column (e.g. after set_index('dt', drop=False))
+        df.index = pd.Index([1000 + i for i in range(n)], name='dt' if n % 2 else 'ceilo')
+    elif mode == 'dtindex':
+        df = df.set_index('dt', drop=False)
+    elif mode == 'multi':
+        df.index = pd.MultiIndex.from_arrays([[str(c) for c in ceilos], list(range(n))], names=['ceilo', 'k'])
     else:
         raise ValueError(mode)
     return df
@@ -527,14 +556,16 @@ class Recorder:
             with warnings.catch_warnings():
                 warnings.simplefilter('ignore')
                 if op == 'construct':
+                    requested = requested_prms(self.desc.get('prms'))
                     self.chunk = CeiloChunk(self.frame, prms=self.desc.get('prms') or None)
-                    self.trace['prm'] = None if self.light else project_prms(self.chunk.prms)
+                    self.trace['prm'] = None if self.light else project_prms(requested)
                 elif op == 'run_api':
                     import ampycloud
+                    requested = requested_prms(self.desc.get('prms'))
                     self.chunk = ampycloud.run(self.frame, prms=self.desc.get('prms') or None, geoloc='verif', ref_dt='2026-01-01 00:00:00')
                     if not isinstance(self.chunk, CeiloChunk):
                         raise TypeError('run() did not return a CeiloChunk')
-                    self.trace['prm'] = None if self.light else project_prms(self.chunk.prms)
+                    self.trace['prm'] = None if self.light else project_prms(requested)
                 elif op in ('find_slices', 'find_groups', 'find_layers'):
                     if self.desc.get('poison'):
                         poison_global()
